@@ -32,14 +32,18 @@ pub fn check_case(case: &Case) -> CaseResult {
     let mut prev_data_ended_with_fe = false;
     let mut sentinels = 0usize;
     let mut data_chunks = 0usize;
-    let budget = 2 * stream.len() + 16;
+    // (every transient end of file costs a pump call of its own)
+    let eof_steps = case.delivery.script.iter().filter(|s| matches!(s, super::codec::ReadStep::Eof)).count();
+    let budget = (2 + 8 * eof_steps) * stream.len() + 16 + 8 * eof_steps;
     let mut pumps = 0usize;
+    let mut eofs_seen = 0usize;
     loop {
         block = block_at(pumps);
         pumps += 1;
         if pumps > budget {
             return Err(Fail::new("chunker:no-progress", format!("more than {budget} pump calls for a {}-byte stream (block size {block})", stream.len())));
         }
+        let eofs_before_pump = reader.transient_eofs;
         let which = if case.delivery.two_arenas && pumps % 2 == 0 { &mut other_arena } else { &mut arena };
         let chunk = chunker
             .pump(which, &mut reader, block)
@@ -79,9 +83,21 @@ pub fn check_case(case: &Case) -> CaseResult {
                         format!("FE FD straddles two consecutive Data chunks at position {} (block size {block})", q - 1),
                     ));
                 }
-                prev_data_ended_with_fe = *s.last().unwrap() == 0xFE;
+                // (a Data chunk handed out because the reader reported end of file may end with a held-back FE
+                // whose FD only arrives later: nothing else can be done with it)
+                prev_data_ended_with_fe = *s.last().unwrap() == 0xFE && reader.transient_eofs == eofs_before_pump;
                 q += s.len();
                 data_chunks += 1;
+            }
+            Chunk::Eof if reader.pos < stream.len() && reader.transient_eofs > eofs_seen => {
+                // The reader said "end of file" with bytes left: the chunker passes that on and
+                // carries on at the next call.  A held-back FE had to be flushed first, so the next
+                // Data chunk may start with the FD that belongs to it.
+                eofs_seen = reader.transient_eofs;
+                if q != reader.pos {
+                    return Err(Fail::new("chunker:eof-position", format!("Eof reported at position {q} while the reader has delivered {} bytes", reader.pos)));
+                }
+                prev_data_ended_with_fe = false;
             }
             Chunk::Eof => {
                 if q != stream.len() || reader.pos != stream.len() {
@@ -100,7 +116,12 @@ pub fn check_case(case: &Case) -> CaseResult {
         }
     }
     let expected_sentinels = hcobs_ref::split_stream(&stream).1.len();
-    if sentinels != expected_sentinels {
+    if reader.transient_eofs > 0 {
+        // An FE FD cut in two by a transient end of file is two Data chunks, not a Sentinel.
+        if sentinels > expected_sentinels {
+            return Err(Fail::new("chunker:sentinel-count", format!("{sentinels} Sentinel chunks for {expected_sentinels} FE FD occurrences")));
+        }
+    } else if sentinels != expected_sentinels {
         return Err(Fail::new("chunker:sentinel-count", format!("{sentinels} Sentinel chunks for {expected_sentinels} FE FD occurrences")));
     }
     Ok(Outcome::new(sentinels > 0 && reader.split_sentinels > 0)
@@ -110,6 +131,7 @@ pub fn check_case(case: &Case) -> CaseResult {
         .label_if(case.delivery.any_block_below_2(), "block<2")
         .label_if(!case.delivery.blocks.is_empty(), "block_size_changes_between_calls")
         .label_if(case.delivery.two_arenas, "two_arenas_alternating")
+        .label_if(reader.transient_eofs > 0, "transient_eof")
         .label_if(block_at(0) >= 4096, "block>=4096")
         .label_if(data_chunks >= 4, ">=4_data_chunks")
         .label_if(stream.len() > 64_260, "stream>64260")
@@ -150,6 +172,9 @@ pub fn run(ctx: &Ctx, rep: &mut Report) {
         Case { stream, delivery }
     });
     engine::drive(ctx, rep, "large-records", large, cases, check_case);
+    let cases = ctx.share(ctx.tier.pick(30_000, 600_000));
+    let tail = (stream_in::stream_spec(7), stream_in::delivery_with_transient_eof()).prop_map(|(stream, delivery)| Case { stream, delivery });
+    engine::drive(ctx, rep, "transient-eof", tail, cases, check_case);
 }
 
 fn replay(_ctx: &Ctx, _group: &str, case: &Value) -> CaseResult {
@@ -159,7 +184,7 @@ fn replay(_ctx: &Ctx, _group: &str, case: &Value) -> CaseResult {
 pub fn def() -> PropDef {
     PropDef {
         id: "C08",
-        rule: "A case is (stream description, delivery): the stream is a sequence of tokens - canonical encodings of small payloads, torn (truncated) and corrupted encodings, garbage, lone FE - each followed by 0..3 FE FD delimiters, optionally truncated as a whole; the delivery is a scripted reader (short reads down to one byte, Interrupted errors, optionally repeating), an io_block_size from {0,1,2,3,4,5,7,8,64,4096,70000,default} and an arena preparation (fresh, pre-sized, 0..4 bytes left in the current chunk; max-size-chunk: the current chunk is a 1 MiB one with 0..37 bytes left). large-records: 1..4 tokens built on payloads of up to 140000 bytes (one in nine of 0.5..1.3 MB: more than a default I/O block and than the arena's largest chunk), block sizes >= 64. In one delivery out of four every pump call gets its own io_block_size (a cyclic schedule of 2..5 sizes from the same set): the block size is an argument of each call, not of the stream. In one delivery out of six successive pump calls alternate between two arenas. pump is called until Eof and twice more. Oracle with running position q: Sentinel(o) has o = q+2 and the stream holds FE FD at q; Data(o, s) is non-empty, equals stream[q..o], contains no FE FD, and a Data ending in FE is never followed by a Data starting with FD; Eof only at the real end and sticky; Sentinel count = number of FE FD occurrences. Non-trivial: the stream has a delimiter and some read delivered exactly the FE of an FE FD pair last. Distinct: hash of the serialised case.",
+        rule: "A case is (stream description, delivery): the stream is a sequence of tokens - canonical encodings of small payloads, torn (truncated) and corrupted encodings, garbage, lone FE - each followed by 0..3 FE FD delimiters, optionally truncated as a whole; the delivery is a scripted reader (short reads down to one byte, Interrupted errors, optionally repeating), an io_block_size from {0,1,2,3,4,5,7,8,64,4096,70000,default} and an arena preparation (fresh, pre-sized, 0..4 bytes left in the current chunk; max-size-chunk: the current chunk is a 1 MiB one with 0..37 bytes left). large-records: 1..4 tokens built on payloads of up to 140000 bytes (one in nine of 0.5..1.3 MB: more than a default I/O block and than the arena's largest chunk), block sizes >= 64. In one delivery out of four every pump call gets its own io_block_size (a cyclic schedule of 2..5 sizes from the same set): the block size is an argument of each call, not of the stream. In one delivery out of six successive pump calls alternate between two arenas. transient-eof: the reader now and then returns Ok(0) with bytes left (a file being appended to) and goes on at the next call; the chunker may pass that on as Eof, after which tiling, offsets and contents must still hold (the FE FD straddle rule is suspended across such an Eof, where a held-back FE had to be flushed). pump is called until Eof and twice more. Oracle with running position q: Sentinel(o) has o = q+2 and the stream holds FE FD at q; Data(o, s) is non-empty, equals stream[q..o], contains no FE FD, and a Data ending in FE is never followed by a Data starting with FD; Eof only at the real end and sticky; Sentinel count = number of FE FD occurrences. Non-trivial: the stream has a delimiter and some read delivered exactly the FE of an FE FD pair last. Distinct: hash of the serialised case.",
         assumptions: &["readers only deliver short reads and Interrupted errors (hard errors and premature end of file are C17's subject)"],
         exhaustive_note: None,
         shards: |t: Tier| t.pick(8, 16),
